@@ -32,13 +32,19 @@ theorem Delim.nameEnd {r : Str} (h : Delim r) : NameEnd r := by
   · intro _ _ e; cases e; decide
   · intro _ _ e; cases e; decide
 
-theorem many0_name_append {n r : Str} (hn : ∀ c ∈ n, nameChar c = true) (hr : NameEnd r) :
-    many0 isNameChar (n ++ r) = some (n, r) := by
+theorem many1_name_append {n r : Str} (hne : n ≠ []) (hn : ∀ c ∈ n, nameChar c = true) (hr : NameEnd r) :
+    many1 isNameChar (n ++ r) = some (n, r) := by
   have hn' : ∀ c ∈ n, isNameChar c = true := fun c hc => isNameChar_of_nameChar (hn c hc)
-  simp only [many0, List.takeWhile_append_of_pos hn', List.dropWhile_append_of_pos hn']
-  cases r with
-  | nil => simp
-  | cons c r' => simp [hr c r' rfl]
+  cases n with
+  | nil => exact absurd rfl hne
+  | cons c n' =>
+    have hc := hn' c List.mem_cons_self
+    have ht : ∀ x ∈ n', isNameChar x = true := fun x hx => hn' x (List.mem_cons_of_mem _ hx)
+    simp only [many1, List.cons_append, hc, if_true, List.takeWhile_append_of_pos ht,
+      List.dropWhile_append_of_pos ht]
+    cases r with
+    | nil => simp
+    | cons x r' => simp [hr x r' rfl]
 
 theorem bracketValue_delim {r : Str} (hr : Delim r) : bracketValue r = none := by
   simp [bracketValue, tag_delim_none (a := '=') ['['] (by decide) (by decide) hr]
@@ -76,13 +82,13 @@ theorem tag_question_none (n : Str) (hn : ∀ c ∈ n, nameChar c = true) (v : O
     | some x => exact tag_cons_ne _ _ (by decide)
     | none => simpa [valuePart] using tag_delim_none (a := '?') [] (by decide) (by decide) hr
 
-theorem parseHeaderL_print (h : HeaderL) (wf : WFHdrL h) {r : Str} (hr : Delim r) :
+theorem parseHeaderL_print (h : HeaderL) (wf : WFHdrL h) (hne : h.name ≠ []) {r : Str} (hr : Delim r) :
     parseHeaderL (printHeaderL h ++ r) = some (h, r) := by
   rw [printHeaderL_eq]
   obtain ⟨o, n, v⟩ := h
   obtain ⟨hn, hv⟩ := wf
   simp only at hn hv
-  have hname := many0_name_append hn (nameEnd_valuePart v hr)
+  have hname := many1_name_append hne hn (nameEnd_valuePart v hr)
   have hval := opt_bracketValue_valuePart v hv hr
   cases o with
   | true =>
@@ -100,10 +106,16 @@ theorem parseHeaderL_print (h : HeaderL) (wf : WFHdrL h) {r : Str} (hr : Delim r
     simp only [hname, hval]
     simp
 
-/-- on `:…` the header parser succeeds without consuming anything -/
-theorem parseHeaderL_colon (r : Str) :
-    parseHeaderL (':' :: r) = some (⟨false, [], none⟩, ':' :: r) := by
-  simp [parseHeaderL, opt, tag_cons_ne, many0, isNameChar, bracketValue]
+/-- a header needs a name: on `:…` / `,…` / the empty text the header parser fails -/
+theorem parseHeaderL_delim {r : Str} (hr : Delim r) : parseHeaderL r = none := by
+  have h1 : opt (tag ['?']) r = some (none, r) := by
+    simp [opt, tag_delim_none (a := '?') [] (by decide) (by decide) hr]
+  have h2 : many1 isNameChar r = none := by
+    rcases hr with rfl | ⟨r', rfl⟩ | ⟨r', rfl⟩
+    · rfl
+    · simp [many1, isNameChar]
+    · simp [many1, isNameChar]
+  simp [parseHeaderL, h1, h2]
 
 end Huginn.SigText
 
@@ -111,57 +123,34 @@ namespace Huginn.SigText
 open Huginn.Sig Huginn.SigText.Spec
 set_option linter.unusedSimpArgs false
 
-/-- the `habsent` field: what `opt(separated_list0(…))` returns, and that the name filter of
-`parse_http_signature` restores the printed list (for the empty list the parser yields one
-header with an empty name, which the filter removes). -/
-theorem habsent_parse (ha : List HeaderL) (wf : ∀ h ∈ ha, WFHdrL h ∧ h.name ≠ []) (r : Str) :
-    ∃ L, opt (sepList0 comma parseHeaderL) (joinComma printHeaderL ha ++ ':' :: r) = some (some L, ':' :: r) ∧
-      L.filter (fun h => !h.name.isEmpty) = ha := by
-  cases ha with
-  | nil =>
-    refine ⟨[⟨false, [], none⟩], ?_, by simp⟩
-    have : comma (':' :: r) = none := tag_cons_ne _ _ (by decide)
-    simp [opt, sepList0, joinComma, parseHeaderL_colon, sepLoop, this]
-  | cons x xs =>
-    refine ⟨x :: xs, ?_, ?_⟩
-    · have := sepList0_joinComma parseHeaderL printHeaderL (x :: xs) (Or.inr ⟨r, rfl⟩)
-        (fun h hh r' hr' => parseHeaderL_print h (wf h hh).1 hr') (fun e => by cases e)
-      simp [opt, this]
-    · rw [List.filter_eq_self]
-      intro h hh
-      have := (wf h hh).2
-      cases hn : h.name with
-      | nil => exact absurd hn this
-      | cons c n => simp
+theorem headers_parse (hs : List HeaderL) (wf : ∀ h ∈ hs, WFHdrL h ∧ h.name ≠ []) (r : Str) :
+    sepList0 comma parseHeaderL (joinComma printHeaderL hs ++ ':' :: r) = some (hs, ':' :: r) :=
+  sepList0_joinComma parseHeaderL printHeaderL hs (Or.inr ⟨r, rfl⟩)
+    (fun h hh r' hr' => parseHeaderL_print h (wf h hh).1 (wf h hh).2 hr')
+    (fun _ => parseHeaderL_delim (Delim.colon r))
 
-end Huginn.SigText
-
-namespace Huginn.SigText
-open Huginn.Sig Huginn.SigText.Spec
-set_option linter.unusedSimpArgs false
-
-/-- print → parse for HTTP signatures outside the class `httpEmptyHorder` -/
-theorem parseHttpSigFullL_print (s : HttpSigL) (hv : versionInGrammar s.version = true)
-    (hh : ∀ h ∈ s.horder, WFHdrL h) (ha : ∀ h ∈ s.habsent, WFHdrL h ∧ h.name ≠ [])
-    (hkf : ¬ Huginn.KF.C06.httpEmptyHorder s) :
+/-- print → parse for HTTP signatures: every value over the vocabulary, both lists possibly empty -/
+theorem parseHttpSigFullL_print (s : HttpSigL) (wf : WFHttpL s) :
     parseHttpSigFullL (printHttpSigL s) = some s := by
   obtain ⟨ver, horder, habsent, expsw⟩ := s
-  cases horder with
-  | nil => exact absurd rfl hkf
-  | cons x xs =>
-    have e : printHttpSigL ⟨ver, x :: xs, habsent, expsw⟩ =
-        printHttpVersion ver ++ (':' :: (joinComma printHeaderL (x :: xs) ++
-          (':' :: (joinComma printHeaderL habsent ++ (':' :: expsw))))) := by
-      simp [printHttpSigL]
-    have h1 : ∀ r, sepList1 comma parseHeaderL (joinComma printHeaderL (x :: xs) ++ ':' :: r) =
-        some (x :: xs, ':' :: r) :=
-      fun r => sepList1_joinComma parseHeaderL printHeaderL x xs (Or.inr ⟨r, rfl⟩)
-        (fun h hm r' hr' => parseHeaderL_print h (hh h hm) hr')
-    obtain ⟨L, h2, h3⟩ := habsent_parse habsent ha expsw
-    unfold parseHttpSigFullL full parseHttpSigL parseHttpSigRawL
-    rw [e]
-    simp only [parseHttpVersion_print ver hv, colon_cons, Option.bind_eq_bind, Option.bind_some, h1, h2,
-      rest, Option.pure_def, Option.getD_some, filterHabsent, h3]
-
+  obtain ⟨hv, hh, ha⟩ := wf
+  simp only at hv hh ha
+  have e : printHttpSigL ⟨ver, horder, habsent, expsw⟩ =
+      printHttpVersion ver ++ (':' :: (joinComma printHeaderL horder ++
+        (':' :: (joinComma printHeaderL habsent ++ (':' :: expsw))))) := by
+    simp [printHttpSigL]
+  have h2 : ∀ r, opt (sepList0 comma parseHeaderL) (joinComma printHeaderL habsent ++ ':' :: r) =
+      some (some habsent, ':' :: r) := fun r => by simp [opt, headers_parse habsent ha r]
+  have h3 : habsent.filter (fun h => !h.name.isEmpty) = habsent := by
+    rw [List.filter_eq_self]
+    intro h hm
+    have := (ha h hm).2
+    cases hn : h.name with
+    | nil => exact absurd hn this
+    | cons c n => simp
+  unfold parseHttpSigFullL full parseHttpSigL parseHttpSigRawL
+  rw [e]
+  simp only [parseHttpVersion_print ver hv, colon_cons, Option.bind_eq_bind, Option.bind_some,
+    headers_parse horder hh, h2, rest, Option.pure_def, Option.getD_some, filterHabsent, h3]
 
 end Huginn.SigText
